@@ -2118,6 +2118,47 @@ func (fc *FC) resolveExitPhis(l *Loop, e *ssa.BasicBlock, v *RF) *RF {
 	return v.Subst(sub)
 }
 
+// resolveAlongEdge: v was computed from block `to`, entered over the edge
+// from→to. Values merged at `to` — and at the joins reached from it in a
+// straight line (the body of a break running into the common continuation) —
+// that the extractor left as opaque merge atoms are, on this path, the values
+// carried by the edges actually taken.
+func (fc *FC) resolveAlongEdge(from, to *ssa.BasicBlock, v *RF) *RF {
+	sub := map[AtomID]*RF{}
+	for n := 0; n < 8; n++ {
+		for _, in := range to.Instrs {
+			ph, ok := in.(*ssa.Phi)
+			if !ok {
+				break
+			}
+			pv := fc.Val(ph)
+			at := pv.SingleAtom()
+			if at == nil || fc.X.phiOf[at.ID] != ph {
+				continue
+			}
+			for k, pr := range ph.Block().Preds {
+				if pr == from && k < len(ph.Edges) {
+					if _, done := sub[at.ID]; !done {
+						sub[at.ID] = fc.Val(ph.Edges[k])
+					}
+				}
+			}
+		}
+		if len(to.Succs) != 1 {
+			break
+		}
+		from, to = to, to.Succs[0]
+	}
+	if len(sub) == 0 {
+		return v
+	}
+	// (a substituted value may itself mention an earlier merge on the path)
+	for i := 0; i < 3; i++ {
+		v = v.Subst(sub)
+	}
+	return v
+}
+
 // gateTuple: ite(c, a, b), component-wise on tuples.
 func (fc *FC) gateTuple(c, a, b *RF) *RF {
 	s := fc.X.S
